@@ -497,7 +497,9 @@ def make_bag_canaries(shards, rng, want, klass):
                 r['out'] = {'err': 'Canary'}
                 r['canary'] = 'refused'
             else:
-                cells = [p for p in r['post'] if p['k'] == 'cell' and p['id'] != c.get('new') and p['y']]
+                # (only cells that were already there before this call: a cell first seen in this record has no earlier state to differ from)
+                before = {q['id'] for q in (b[k - 1].get('post') or [])} if k > 0 else set()
+                cells = [p for p in r['post'] if p['k'] == 'cell' and p['id'] != c.get('new') and p['y'] and p['id'] in before]
                 if not cells:
                     continue
                 p = rng.choice(cells)
